@@ -72,6 +72,12 @@ enum It {
     Rows(&'static str, &'static str),
     /// the elements of an array bound by an outer iteration
     InVar(&'static str, &'static str),
+    /// the elements of the row of a matrix selected by an index expression: `v in M[i]`
+    InRow(&'static str, &'static str, I),
+    /// `(v, k) in enumerate(M[i])`
+    EnumRow(&'static str, &'static str, &'static str, I),
+    /// `k in 0..len(M[i])`
+    RangeLenRow(&'static str, &'static str, I),
 }
 
 #[derive(Clone, Debug, Default)]
@@ -150,6 +156,9 @@ impl It {
             It::SetOp(v, op, a, b) => format!("{v} in {op}({a}, {b})"),
             It::Rows(r, m) => format!("{r} in {m}"),
             It::InVar(v, r) => format!("{v} in {r}"),
+            It::InRow(v, m, i) => format!("{v} in {m}[{}]", i.text()),
+            It::EnumRow(v, k, m, i) => format!("({v}, {k}) in enumerate({m}[{}])", i.text()),
+            It::RangeLenRow(k, m, i) => format!("{k} in 0..len({m}[{}])", i.text()),
         }
     }
     /// the reference iteration semantics: the bindings of each iteration, in order
@@ -230,6 +239,25 @@ impl It {
                 Some(Val::Arr(a)) => a.iter().map(|x| vec![(*v, Val::Num(*x))]).collect(),
                 _ => return Err(format!("{r} is not a bound array")),
             },
+            It::InRow(..) | It::EnumRow(..) | It::RangeLenRow(..) => {
+                let (m, i) = match self {
+                    It::InRow(_, m, i) | It::RangeLenRow(_, m, i) => (m, i),
+                    It::EnumRow(_, _, m, i) => (m, i),
+                    _ => unreachable!(),
+                };
+                let rows = d.matrices.get(m).ok_or("unknown matrix")?;
+                let ix = i.eval(env, d)?.num();
+                if ix < 0.0 || ix.fract() != 0.0 || ix as usize >= rows.len() {
+                    return Err("row index out of range".into());
+                }
+                let row = &rows[ix as usize];
+                match self {
+                    It::InRow(v, _, _) => row.iter().map(|x| vec![(*v, Val::Num(*x))]).collect(),
+                    It::EnumRow(v, k, _, _) => row.iter().enumerate().map(|(j, x)| vec![(*v, Val::Num(*x)), (*k, Val::Num(j as f64))]).collect(),
+                    It::RangeLenRow(k, _, _) => (0..row.len()).map(|j| vec![(*k, Val::Num(j as f64))]).collect(),
+                    _ => unreachable!(),
+                }
+            }
         })
     }
 }
@@ -443,6 +471,10 @@ fn templates() -> Vec<Prog> {
     // nested arrays: rows bound as arrays, then iterated
     p("rows-of-matrix", add(E::V("z"), agg("sum", vec![It::Rows("row", "M"), It::InVar("v", "row")], mul(iv("v"), E::V("z")))), vec![le(E::V("z"), 1.0)], base_decls());
     p("forall-rows-len", E::V("z"), vec![Cons { name: None, lhs: add(E::V("z"), agg("sum", vec![It::InVar("v", "row")], mul(iv("v"), E::V("z")))), rel: "<=", rhs: E::K(I::LenVar("row")), iters: vec![It::Rows("row", "M")] }], base_decls());
+    // the inner iterator depends on the outer variable only through an array-access index
+    p("inner-row-by-index", add(E::V("z"), agg("sum", vec![It::Range("i", lit(0.0), I::Len("R"), false), It::InRow("v", "R", iv("i"))], mul(I::Add(Box::new(iv("v")), Box::new(I::Mul(Box::new(lit(10.0)), Box::new(iv("i"))))), E::V("z")))), vec![le(E::V("z"), 1.0)], base_decls());
+    p("inner-enumerate-row-by-index", add(E::V("z"), agg("sum", vec![It::Range("i", lit(0.0), I::Len("R"), false), It::EnumRow("v", "k", "R", iv("i"))], mul(I::Add(Box::new(iv("v")), Box::new(I::Mul(Box::new(lit(10.0)), Box::new(iv("k"))))), x("x", vec![iv("i")])))), vec![le(E::V("z"), 1.0)], base_decls());
+    p("forall-range-len-row-by-index", E::V("z"), vec![Cons { name: None, lhs: add(x("x", vec![iv("k")]), E::V("z")), rel: "<=", rhs: E::K(I::Acc("R", vec![iv("i"), iv("k")])), iters: vec![It::Range("i", lit(0.0), I::Len("R"), false), It::RangeLenRow("k", "R", iv("i"))] }], base_decls());
     // other aggregates
     p("prod-of-data", mul(I::Lit(1.0), add(E::V("z"), mul(lit(0.0), E::V("z")))), vec![Cons { name: None, lhs: mul(lit(1.0), E::V("z")), rel: "<=", rhs: agg("prod", vec![It::In("v", "A")], E::K(iv("v"))), iters: vec![] }], base_decls());
     p("prod-empty-is-one", E::V("z"), vec![Cons { name: None, lhs: E::V("z"), rel: "<=", rhs: agg("prod", vec![It::Range("i", lit(0.0), lit(0.0), false)], E::K(iv("i"))), iters: vec![] }], base_decls());
@@ -480,6 +512,8 @@ fn data_shapes() -> Vec<(&'static str, Data)> {
         d.arrays.insert("P1", vec![1.0, 12.0]);
         d.arrays.insert("P2", vec![23.0, 3.0]);
         d.matrices.insert("M", vec![vec![1.0, 2.0], vec![3.0, 4.5]]);
+        // a ragged matrix: rows of different lengths and values
+        d.matrices.insert("R", vec![vec![1.0], vec![2.0, 3.0], vec![0.5, 4.0, 5.0]]);
         d.graphs.insert("G", g);
         d
     };
@@ -722,7 +756,7 @@ fn check_prog(t: &Prog, dname: &str, d: &Data, l: &mut Local) {
 pub fn run(mut run: Run) -> ! {
     crate::core::silence_panics();
     let n = (templates().len() * data_shapes().len()) as u64;
-    run.rule = "family P: 36 program templates (exclusive/inclusive/negative/descending/empty/length-dependent ranges, array iteration, enumerate, zip of unequal lengths, dependent nested iterators, matrix access, iteration over the rows of a nested array and over each bound row, union/intersection/difference, prod incl. empty, avg/min/max incl. empty ones that must be rejected, for-quantified constraints with indexed names, two iterators, index expressions x_{i+1} and x_{A[i]}, two-index families incl. the collision-prone x_1_23 / x_12_3, graph edges with weights, nodes, neigh_edges, neigh_edges_of, declarations over ranges / array values / edges) x 5 data shapes (3 elements; fractional and repeated values with self-loop and unweighted graph; singletons with isolated node; zeros and shared elements; an empty array with an edgeless graph); family R: every range a..b and a..=b with a, b in -3..=3 as sum iterator, for-quantifier of a constraint, iterator of a declaration, and inner iterator whose start depends on the outer variable (784 programs); family N: every ordered pair (outer, inner) of iterator kinds {range, array, enumerate, zip, weighted edges, union/difference, nodes, dependent range, neigh_edges of the outer node} as nested sum, as nested for-quantifier (row order) and as sum inside a for-quantified row, x the 5 data shapes, with a coefficient that weights every bound variable differently; family N3: every triple of independent iterator kinds nested three deep as sum and as for-quantifier x the 5 data shapes; each pair (program with constructs, reference unrolling) is compiled and the linear models compared row for row in order; distinct = program texts; non-trivial = both compile".into();
+    run.rule = "family P: 39 program templates (exclusive/inclusive/negative/descending/empty/length-dependent ranges, array iteration, enumerate, zip of unequal lengths, dependent nested iterators, matrix access, iteration over the rows of a nested array and over each bound row, inner iterators that depend on the outer variable only through an array-access index (v in R[i], enumerate(R[i]), 0..len(R[i]) over a ragged matrix), union/intersection/difference, prod incl. empty, avg/min/max incl. empty ones that must be rejected, for-quantified constraints with indexed names, two iterators, index expressions x_{i+1} and x_{A[i]}, two-index families incl. the collision-prone x_1_23 / x_12_3, graph edges with weights, nodes, neigh_edges, neigh_edges_of, declarations over ranges / array values / edges) x 5 data shapes (3 elements; fractional and repeated values with self-loop and unweighted graph; singletons with isolated node; zeros and shared elements; an empty array with an edgeless graph); family R: every range a..b and a..=b with a, b in -3..=3 as sum iterator, for-quantifier of a constraint, iterator of a declaration, and inner iterator whose start depends on the outer variable (784 programs); family N: every ordered pair (outer, inner) of iterator kinds {range, array, enumerate, zip, weighted edges, union/difference, nodes, dependent range, neigh_edges of the outer node} as nested sum, as nested for-quantifier (row order) and as sum inside a for-quantified row, x the 5 data shapes, with a coefficient that weights every bound variable differently; family N3: every triple of independent iterator kinds nested three deep as sum and as for-quantifier x the 5 data shapes; each pair (program with constructs, reference unrolling) is compiled and the linear models compared row for row in order; distinct = program texts; non-trivial = both compile".into();
     run.assume("reference unroller implementing the documented iteration semantics (textual order of data, zip stops at the shorter array, enumerate counts from 0, exclusive/inclusive ranges, descending ranges empty, empty sum = 0, empty prod = 1, empty avg/min/max rejected, union keeps first occurrences in order, intersection and difference filter the first array); all data values are small dyadic numbers so coefficient sums are exact and models are compared with zero tolerance");
     run.family("P-template-x-data", n, check);
     run.family("R-range-grid", range_grid_size(), |i, l| {
